@@ -77,6 +77,19 @@ def check_merge(r, lib, only_order=False):
     if res is None:
         r.ob("M1.append-only", fn, False, "shape not recognised: the return value is not a local vector", site=mir.line_of(b.span), key="M1|shape")
         return
+    # M0: the accumulated vector is the only value ever returned (no side exit / fast path with its own result)
+    rets = [s for s in b.sites() if (s.si is not None and s.node["k"] == "assign" and s.node["place"]["l"] == 0 and not s.node["place"]["p"]) or
+            (s.si is None and s.node["k"] == "call" and s.node["dest"]["l"] == 0)]
+    extra = []
+    for s in rets:
+        if s.si is not None and s.node["rv"]["k"] == "use":
+            p = mir.op_place(s.node["rv"]["op"])
+            if p is not None and not p["p"] and p["l"] == res:
+                continue
+        extra.append(s)
+    r.ob("M0.single-result-path", fn, not extra and len(rets) == 1, "the function returns only the vector built by the two passes" if not extra and len(rets) == 1 else
+         "the function has %d result path(s) besides the two-pass accumulation (e.g. %s): they bypass the checked passes" % (len(extra) or len(rets) - 1, (extra or rets)[0].loc()),
+         site=(extra or rets)[0] if rets else None, key="M0|single-result")
     # M1
     creators = [d for d in b.defs().get(res, [])]
     ok_new = len(creators) == 1 and creators[0].si is None and cname(creators[0].node) in ("std::vec::Vec::new", "std::vec::Vec::with_capacity")
